@@ -22,6 +22,8 @@ JOBS = {
             "G1 X9 ;@ seam", "G1 X8 ; see ;@pause"],
     # a host-command line (ignored by the sender) in the middle of the job
     "J11": ["G1 X1", ";@notify layer done", "G1 X2", "; plain comment", ";@unknown", "G1 X3"],
+    # three layers at rising heights (edited with prepend_to_layer before streaming)
+    "J12": ["G1 Z0.2", "G1 X1 E1", "G1 Z0.4", "G1 X2 E2", "G1 Z0.6", "G1 X3 E3", "M84"],
     "J8": ["G1 Z0.2", "G1 X1 E1", "G1 Z0.6", "G0 X5", "G1 Z0.2", "G1 X6 E2", "G1 Z0.4", "G1 X7 E3"],
 }
 COMMENT_RE = re.compile(r"\([^()]*\)|;.*")
@@ -66,6 +68,17 @@ def _run_execution(cfg, prefix, record=False):
             gc = gcoder.GCode(list(JOBS[jname]))
             for extra in cfg.get("footer", ()):
                 gc.append(extra)                 # lines added to the job after it was built (a footer, a late command)
+            if cfg.get("prepend"):
+                # the application edits one layer of the job before streaming it (commands put in front of that layer)
+                cmds, which = cfg["prepend"]
+                layers = [[ln.raw for ln in layer] for layer in gc.all_layers]
+                populated = [i for i, layer in enumerate(layers) if layer]
+                k = populated[-1] if which == "last" else populated[len(populated) // 2]
+                flat_before = [raw for layer in layers[:k] for raw in layer]
+                jm["expected_raw"] = flat_before + list(cmds) + [raw for layer in layers[k:] for raw in layer]
+                if [raw for layer in layers for raw in layer] != list(JOBS[jname]):
+                    raise AssertionError("harness: the layers of the unedited job are not the job in order; pick a job with rising heights")
+                gc.prepend_to_layer(list(cmds), k)
             jm["started"] = p.startprint(gc)
             if cfg.get("poll"):
                 # the application polls the temperature with a priority command while the job is running
@@ -121,6 +134,8 @@ def check_execution(cfg, ex, marks, leaked):
         last_job = ji == len(jobs) - 1
         end = jobs[ji + 1]["job_start"] if not last_job else len(dev.log)
         want = expected_commands(list(JOBS[jm["name"]]) + list(cfg.get("footer", ())))
+        if jm.get("expected_raw"):
+            want = expected_commands(jm["expected_raw"])
         accepted = fw.accepted[jm["accepted_start"]: (jm.get("accepted_end") if jm.get("accepted_end") is not None else len(fw.accepted))]
         P += check_job(cfg, S, fw, dev, marks, jm["job_start"], end, want, accepted, complete_expected=("drained" in jm), tag=("" if ji == 0 else f":job{ji + 1}"))
     return P
@@ -312,6 +327,10 @@ def plan(tier):
         for dialect in ("A", "B"):
             for corrupt in ((), (2,), (5,)):
                 base = {"job": "J4", "dialect": dialect, "greeting": None, "eager": False, "corrupt": corrupt, "footer": ["M104 S0 ; cool down", "G28 X0", "M84"]}
+                items.append(({**base, "line_points": True}, 0, None))
+        for dialect, which in (("A", "last"), ("B", "middle"), ("A", "middle"), ("B", "last")):
+            for corrupt in ((), (3,)):
+                base = {"job": "J12", "dialect": dialect, "greeting": None, "eager": False, "corrupt": corrupt, "prepend": (["M117 layer", "M106 S255"], which)}
                 items.append(({**base, "line_points": True}, 0, None))
         for corrupt in ((), (0,), (1,), (2,), (1, 2)):
             base = {"job": "J3", "dialect": "D", "greeting": None, "eager": False, "corrupt": corrupt}
